@@ -6,11 +6,19 @@
 (***************************************************************************)
 EXTENDS Naturals, Integers, FiniteSets
 Min(a, b) == IF a < b THEN a ELSE b
+\* (the type annotations in the comments below are for Apalache, see PartialSVDApa.tla; TLC ignores them)
+\* @typeAlias: svstate = { gen: Int, nconv: Int, cacheGen: Int, cacheCols: Int };
+\* @typeAlias: svread = { gen: Int, at: Int, nc: Int, cols: Int, k: Int, ok: Bool };
+\* @type: $svstate;
 SV_Fresh == [gen |-> 0, nconv |-> 0, cacheGen |-> 0, cacheCols |-> 0]
+\* @type: ($svstate, Int, Bool) => $svstate;
 SV_Compute(sv, c, invalidate) ==
     [sv EXCEPT !.gen = sv.gen + 1, !.nconv = c, !.cacheGen = IF invalidate THEN 0 ELSE sv.cacheGen, !.cacheCols = IF invalidate THEN 0 ELSE sv.cacheCols]
+\* @type: $svstate => Bool;
 G_SV_Read(sv) == sv.gen > 0
+\* @type: $svstate => $svstate;
 SV_ReadState(sv) == [sv EXCEPT !.cacheGen = IF sv.cacheGen = 0 THEN sv.gen ELSE sv.cacheGen, !.cacheCols = IF sv.cacheGen = 0 THEN sv.nconv ELSE sv.cacheCols]
+\* @type: ($svstate, Int) => $svread;
 SV_ReadResult(sv, k) ==
     LET t == SV_ReadState(sv) want == Min(k, sv.nconv) IN
     [gen |-> t.cacheGen, at |-> sv.gen, nc |-> sv.nconv, cols |-> Min(want, t.cacheCols), k |-> k, ok |-> want <= t.cacheCols]
